@@ -115,13 +115,12 @@ Definition gone_guarded := all_ends only_nsp gone_entries.
 Definition only_val (r : asig * astate) : bool :=
   match r with (ANormal, _) | (AReturn, _) => true | _ => false end.
 Definition gone_value := all_ends only_val gone_entries.
-(* calls that also query OTHER Process objects (parent, parents, children, process_iter): as [ok_end] for errors
-   carrying the object's own pid; NoSuchProcess / ZombieProcess / AccessDenied carrying the other process's pid are
-   tolerated; bare errors are not *)
+(* calls that also query OTHER Process objects (parent, parents, children, process_iter): as [ok_end], and an
+   AccessDenied raised by a query on another Process object may carry that process's pid; NoSuchProcess /
+   ZombieProcess about another process never escape (a vanished relative is left out), bare errors neither *)
 Definition ok_end_tree (r : asig * astate) : bool :=
   match r with
-  | (ARaise (XNSP Other), _) | (ARaise (XZombie Other), _) | (ARaise (XAD Other), _) => true
-  | (ARaise (XNSP Any), _) | (ARaise (XZombie Any), _) | (ARaise (XAD Any), _) => true
+  | (ARaise (XAD Other), _) | (ARaise (XAD Any), _) => true
   | _ => ok_end r
   end.
 Definition tree_guarded := all_ends ok_end_tree entries.
